@@ -31,7 +31,7 @@ def encList (l : List Bytes) : String :=
   if l.isEmpty then "~" else ",".intercalate (l.map encBytes)
 
 def decList (s : String) : Option (List Bytes) :=
-  if s == "~" then some [] else (s.splitOn ",").mapM decBytes
+  if s == "~" || s == "~~" then some [] else (s.splitOn ",").mapM decBytes
 
 def encOptList : Option (List Bytes) → String
   | none => "!"
